@@ -21,26 +21,18 @@ package fasthttp
 // the stop flag was set carries "Connection: close" (raw bytes).
 
 import (
-	"bufio"
-	"bytes"
 	"context"
-	"errors"
 	"fmt"
-	"io"
-	"net"
-	"net/http"
 	"sort"
 	"strings"
 	"sync"
 	"testing"
 	"time"
 
-	"github.com/valyala/fasthttp/fasthttputil"
 	"pgregory.net/rapid"
 )
 
 const (
-	vpC15SetupMax = 30 * time.Second // harness plumbing (no shutdown involved): expiry = inconclusive
 	vpC15Watchdog = 10 * time.Second // Shutdown must return this long after the last gate opened (nominal <= 0.2 s)
 	vpC15FreshMax = 40 * time.Second // same, when a never-used connection exists (nominal 5-6 s)
 	vpC15Slack    = 10 * time.Second // asynchronous tails after Shutdown returned (nominal: microseconds)
@@ -141,9 +133,11 @@ func vpC15Gen(t *rapid.T) vpC15Scenario {
 					// then is the kernel's business, not fasthttp's: keep that variant off real sockets
 					c.Split = false
 				}
-				if pipeKnown && !c.Split && c.Release >= 1 && !sc.CloseOnShutdown && !sc.ReduceMem {
-					// known finding: the buffered (unflushed) response is dropped. Steer to the variant
-					// in which the followers arrive after the gated handler started.
+				if pipeKnown && !c.Split && !sc.ReduceMem && (c.Release == 1 || (c.Release >= 2 && !sc.CloseOnShutdown)) {
+					// known finding: the buffered (unflushed) response is dropped. ReduceMemoryUsage always
+					// flushes; CloseOnShutdown flushes only if the stop flag was already set when the handler
+					// returned (Release>=2), a handler racing the Shutdown call (Release==1) can still lose.
+					// Steer to the variant in which the followers arrive after the gated handler started.
 					vpExclude(vpC15KeyPipe)
 					if sc.LnKinds[c.Ln] == "tcp" {
 						c.Release = 0
@@ -163,248 +157,6 @@ func vpC15Gen(t *rapid.T) vpC15Scenario {
 		sc.Conns = append(sc.Conns, c)
 	}
 	return sc
-}
-
-// ---------------------------------------------------------------------------------------------
-// harness listener handing out vpWire connections
-
-type vpC15Listener struct {
-	mu     sync.Mutex
-	closed bool
-	closes int
-	ch     chan net.Conn
-	done   chan struct{}
-}
-
-func vpC15NewListener() *vpC15Listener {
-	return &vpC15Listener{ch: make(chan net.Conn, 64), done: make(chan struct{})}
-}
-
-var vpC15ErrClosed = errors.New("vpC15 listener: use of closed network connection")
-
-func (l *vpC15Listener) Accept() (net.Conn, error) {
-	select {
-	case <-l.done:
-		return nil, vpC15ErrClosed
-	default:
-	}
-	select {
-	case c := <-l.ch:
-		return c, nil
-	case <-l.done:
-		return nil, vpC15ErrClosed
-	}
-}
-
-func (l *vpC15Listener) Close() error {
-	l.mu.Lock()
-	l.closes++
-	if l.closed {
-		l.mu.Unlock()
-		return vpC15ErrClosed
-	}
-	l.closed = true
-	close(l.done)
-	l.mu.Unlock()
-	for {
-		select {
-		case c := <-l.ch:
-			c.Close()
-		default:
-			return nil
-		}
-	}
-}
-
-func (l *vpC15Listener) Addr() net.Addr { return &net.TCPAddr{IP: net.IPv4(127, 0, 0, 1), Port: 8080} }
-
-func (l *vpC15Listener) isClosed() bool {
-	l.mu.Lock()
-	defer l.mu.Unlock()
-	return l.closed
-}
-
-func (l *vpC15Listener) dial() (*vpWire, error) {
-	l.mu.Lock()
-	defer l.mu.Unlock()
-	if l.closed {
-		return nil, vpC15ErrClosed
-	}
-	w := vpNewWire(nil, nil, false)
-	select {
-	case l.ch <- w:
-		return w, nil
-	default:
-		return nil, errors.New("vpC15 listener: backlog full")
-	}
-}
-
-// vpC15CloseSpy wraps a listener that is not ours and records Close.
-type vpC15CloseSpy struct {
-	net.Listener
-	mu     sync.Mutex
-	closed bool
-}
-
-func (l *vpC15CloseSpy) Close() error {
-	l.mu.Lock()
-	l.closed = true
-	l.mu.Unlock()
-	return l.Listener.Close()
-}
-
-func (l *vpC15CloseSpy) isClosed() bool {
-	l.mu.Lock()
-	defer l.mu.Unlock()
-	return l.closed
-}
-
-// ---------------------------------------------------------------------------------------------
-// client side
-
-type vpC15Client struct {
-	w      *vpWire
-	c      net.Conn
-	mu     sync.Mutex
-	cond   *sync.Cond
-	buf    []byte
-	closed bool
-	rdDone chan struct{}
-}
-
-func vpC15WireClient(w *vpWire) *vpC15Client { return &vpC15Client{w: w} }
-
-func vpC15NetClient(c net.Conn) *vpC15Client {
-	cl := &vpC15Client{c: c, rdDone: make(chan struct{})}
-	cl.cond = sync.NewCond(&cl.mu)
-	go func() {
-		defer close(cl.rdDone)
-		b := make([]byte, 8192)
-		for {
-			n, err := c.Read(b)
-			cl.mu.Lock()
-			cl.buf = append(cl.buf, b[:n]...)
-			if err != nil {
-				cl.closed = true
-			}
-			cl.cond.Broadcast()
-			cl.mu.Unlock()
-			if err != nil {
-				return
-			}
-		}
-	}()
-	return cl
-}
-
-func (cl *vpC15Client) send(b []byte) {
-	if cl.w != nil {
-		cl.w.Feed(b)
-		return
-	}
-	cl.c.SetWriteDeadline(time.Now().Add(vpC15SetupMax))
-	cl.c.Write(b) //nolint:errcheck // a refused write shows up as a missing response
-}
-
-func (cl *vpC15Client) snapshot() ([]byte, bool) {
-	if cl.w != nil {
-		return cl.w.Out(), cl.w.Closed()
-	}
-	cl.mu.Lock()
-	defer cl.mu.Unlock()
-	return append([]byte(nil), cl.buf...), cl.closed
-}
-
-// wait blocks until pred holds (true) or max elapsed / nothing more can arrive (false).
-func (cl *vpC15Client) wait(max time.Duration, pred func(out []byte, closed bool) bool) bool {
-	deadline := time.Now().Add(max)
-	if cl.w != nil {
-		for {
-			cl.w.WaitOut(time.Until(deadline), func(out []byte) bool { return pred(out, false) })
-			out, closed := cl.snapshot()
-			if pred(out, closed) {
-				return true
-			}
-			if closed || !time.Now().Before(deadline) {
-				return false
-			}
-		}
-	}
-	tm := time.AfterFunc(max, func() {
-		cl.mu.Lock()
-		cl.cond.Broadcast()
-		cl.mu.Unlock()
-	})
-	defer tm.Stop()
-	cl.mu.Lock()
-	defer cl.mu.Unlock()
-	for {
-		if pred(cl.buf, cl.closed) {
-			return true
-		}
-		if cl.closed || !time.Now().Before(deadline) {
-			return false
-		}
-		cl.cond.Wait()
-	}
-}
-
-func (cl *vpC15Client) shut() {
-	if cl.w != nil {
-		cl.w.Close()
-		return
-	}
-	cl.c.Close()
-	<-cl.rdDone
-}
-
-type vpC15Resp struct {
-	Status    int
-	Body      string
-	ConnClose bool // "Connection: close" present in the raw head
-}
-
-// vpC15Parse splits raw client bytes into complete responses (net/http as the parser) and the
-// unparseable / incomplete remainder.
-func vpC15Parse(out []byte) (resps []vpC15Resp, rest []byte) {
-	off := 0
-	for off < len(out) {
-		rd := bytes.NewReader(out[off:])
-		br := bufio.NewReader(rd)
-		resp, err := http.ReadResponse(br, nil)
-		if err != nil {
-			break
-		}
-		body, err := io.ReadAll(resp.Body)
-		resp.Body.Close()
-		if err != nil {
-			break
-		}
-		consumed := len(out[off:]) - rd.Len() - br.Buffered()
-		raw := out[off : off+consumed]
-		head := raw
-		if i := bytes.Index(raw, []byte("\r\n\r\n")); i >= 0 {
-			head = raw[:i+2]
-		}
-		cc := false
-		for _, line := range strings.Split(string(head), "\r\n") {
-			if k, v, ok := strings.Cut(line, ":"); ok && strings.EqualFold(strings.TrimSpace(k), "connection") {
-				for _, tok := range strings.Split(v, ",") {
-					if strings.EqualFold(strings.TrimSpace(tok), "close") {
-						cc = true
-					}
-				}
-			}
-		}
-		resps = append(resps, vpC15Resp{Status: resp.StatusCode, Body: string(body), ConnClose: cc})
-		off += consumed
-	}
-	return resps, out[off:]
-}
-
-func vpC15Complete(out []byte) int {
-	r, _ := vpC15Parse(out)
-	return len(r)
 }
 
 // ---------------------------------------------------------------------------------------------
@@ -475,11 +227,7 @@ type vpC15Run struct {
 	clients  []*vpC15Client
 	dialErr  []error
 
-	wireLn []*vpC15Listener
-	spyLn  []*vpC15CloseSpy
-	inmem  []*fasthttputil.InmemoryListener
-	tcpLn  []net.Listener
-	lns    []net.Listener
+	nw *vpC15Net
 }
 
 func vpC15ReqBytes(r vpC15Req) []byte {
@@ -523,28 +271,7 @@ func (r *vpC15Run) openGate(id string) {
 	}
 }
 
-func (r *vpC15Run) dial(ln int) (*vpC15Client, error) {
-	switch r.sc.LnKinds[ln] {
-	case "wire":
-		w, err := r.wireLn[ln].dial()
-		if err != nil {
-			return nil, err
-		}
-		return vpC15WireClient(w), nil
-	case "inmem":
-		c, err := r.inmem[ln].Dial()
-		if err != nil {
-			return nil, err
-		}
-		return vpC15NetClient(c), nil
-	default:
-		c, err := net.DialTimeout("tcp", r.tcpLn[ln].Addr().String(), 5*time.Second)
-		if err != nil {
-			return nil, err
-		}
-		return vpC15NetClient(c), nil
-	}
-}
+func (r *vpC15Run) dial(ln int) (*vpC15Client, error) { return r.nw.dial(ln) }
 
 // setupConn brings connection j into its phase. A non-empty result means the harness could not
 // set the stage (nothing about Shutdown has happened yet).
@@ -603,8 +330,8 @@ func (r *vpC15Run) cleanup(shutRet chan error, serveDone []chan error) {
 		r.openGate(id)
 	}
 	r.fbOnce.Do(func() { close(r.fallback) })
-	for _, l := range r.lns {
-		l.Close()
+	if r.nw != nil {
+		r.nw.closeAll()
 	}
 	r.lateWG.Wait()
 	for _, cl := range r.clients {
@@ -679,55 +406,22 @@ func vpC15RunScenario(t *rapid.T, sc vpC15Scenario) {
 	}
 	r.s = s
 	nl := len(sc.LnKinds)
-	r.wireLn = make([]*vpC15Listener, nl)
-	r.spyLn = make([]*vpC15CloseSpy, nl)
-	r.inmem = make([]*fasthttputil.InmemoryListener, nl)
-	r.tcpLn = make([]net.Listener, nl)
 	serveDone := make([]chan error, nl)
-	for i, k := range sc.LnKinds {
-		var ln net.Listener
-		switch k {
-		case "wire":
-			r.wireLn[i] = vpC15NewListener()
-			ln = r.wireLn[i]
-		case "inmem":
-			r.inmem[i] = fasthttputil.NewInmemoryListener()
-			r.spyLn[i] = &vpC15CloseSpy{Listener: r.inmem[i]}
-			ln = r.spyLn[i]
-		default:
-			tl, err := net.Listen("tcp4", "127.0.0.1:0")
-			if err != nil {
-				for _, l := range r.lns {
-					l.Close()
-				}
-				t.Fatalf("VP-INCONCLUSIVE: cannot listen on loopback: %v", err)
-			}
-			r.tcpLn[i] = tl
-			r.spyLn[i] = &vpC15CloseSpy{Listener: tl}
-			ln = r.spyLn[i]
-		}
-		r.lns = append(r.lns, ln)
+	nw, err := vpC15NewNet(sc.LnKinds)
+	if err != nil {
+		t.Fatalf("VP-INCONCLUSIVE: cannot listen on loopback: %v", err)
 	}
-	for i := range r.lns {
+	r.nw = nw
+	for i := range nw.lns {
 		serveDone[i] = make(chan error, 1)
-		go func(i int) { serveDone[i] <- s.Serve(r.lns[i]) }(i)
+		go func(i int) { serveDone[i] <- s.Serve(nw.lns[i]) }(i)
 	}
 	var shutRet chan error
 	defer func() { r.cleanup(shutRet, serveDone) }()
 
 	// Serve registers its listener before accepting; Shutdown only knows registered listeners.
-	regDeadline := time.Now().Add(vpC15SetupMax)
-	for {
-		s.mu.Lock()
-		reg := len(s.ln)
-		s.mu.Unlock()
-		if reg == nl {
-			break
-		}
-		if time.Now().After(regDeadline) {
-			t.Fatalf("VP-INCONCLUSIVE: Serve goroutines did not register their listeners in %v", vpC15SetupMax)
-		}
-		time.Sleep(100 * time.Microsecond)
+	if !vpC15WaitRegistered(s, nl) {
+		t.Fatalf("VP-INCONCLUSIVE: Serve goroutines did not register their listeners in %v", vpC15SetupMax)
 	}
 
 	// ---- stage: every connection reaches its phase
@@ -914,28 +608,28 @@ func vpC15RunScenario(t *rapid.T, sc vpC15Scenario) {
 	for i, k := range sc.LnKinds {
 		switch k {
 		case "wire":
-			if !r.wireLn[i].isClosed() {
+			if !r.nw.wireLn[i].isClosed() {
 				t.Fatalf("listener %d (wire) was not closed by Shutdown\nscenario: %s", i, sc)
 			}
-			if w, err := r.wireLn[i].dial(); err == nil {
+			if w, err := r.nw.wireLn[i].dial(); err == nil {
 				w.Close()
 				t.Fatalf("listener %d (wire) still accepts dials after Shutdown\nscenario: %s", i, sc)
 			}
 		case "inmem":
-			if !r.spyLn[i].isClosed() {
+			if !r.nw.spyLn[i].isClosed() {
 				t.Fatalf("listener %d (inmem) was not closed by Shutdown\nscenario: %s", i, sc)
 			}
-			if c, err := r.inmem[i].Dial(); err == nil {
+			if c, err := r.nw.inmem[i].Dial(); err == nil {
 				c.Close()
 				t.Fatalf("listener %d (inmem) still accepts dials after Shutdown\nscenario: %s", i, sc)
 			}
 		default:
-			if !r.spyLn[i].isClosed() {
+			if !r.nw.spyLn[i].isClosed() {
 				t.Fatalf("listener %d (tcp) was not closed by Shutdown\nscenario: %s", i, sc)
 			}
 			// the socket itself: Accept on a closed listener fails at once (dialling the freed port could
 			// reach somebody else's socket on this shared machine)
-			if c, err := r.tcpLn[i].Accept(); err == nil {
+			if c, err := r.nw.tcpLn[i].Accept(); err == nil {
 				c.Close()
 				t.Fatalf("listener %d (tcp) still accepts connections after Shutdown\nscenario: %s", i, sc)
 			}
